@@ -14,7 +14,7 @@ CHECKS = {
  "C08": ("SEQ+FUZZ", "model-based stateful PBT over request shapes x key states", "all builder-accepted put_or_update shapes; effects checked at return and after acknowledgement", "reference model trusted; F7 excluded and probed", "5/C08"),
  "C09": ("SEQ+CONC+FUZZ", "model-based stateful PBT with harness-owned clock and deadline walks", "reads 1 ns before / on / after deadlines after TTL changes, with the sweeper on and off", "reference model trusted", "5/C09"),
  "C10": ("SEQ+CONC+FUZZ", "model-based stateful PBT with synchronised sweeps and shard rotations", "safety after every completed sweep and bounded liveness after a full shard rotation on generated TTL histories", "sweep-counter hooks trusted", "5/C10"),
- "C11": ("SEQ+CONC+FUZZ", "generated unawaited bursts + injection; trace checker (exactly once, non-overlapping, submission order) and acknowledgement-order probe", "trace of executed commands compared with the call history of generated bursts on queues down to 1", "Executed/Sent trace events trusted; commands identified by acknowledgement address kept alive for the case", "5/C11"),
+ "C11": ("SEQ+CONC+FUZZ", "generated unawaited bursts + injection; trace checker (exactly once, non-overlapping, submission order) and acknowledgement-order probe", "trace of executed commands compared with the call history of generated bursts on queues down to 1", "Executed/Sent trace events trusted; commands identified by a per-acknowledgement id (hook)", "5/C11"),
  "C12": ("ACK", "harness-owned schedules: exhaustive enumeration of bounded shapes + generated choice vectors (proptest) + end-to-end stress", "all interleavings of done() with polls for shapes <= 2 tasks x 2 polls / 1 task x 3 polls enumerated; larger shapes sampled; 320k real puts busy-polled/parked", "schedule points + serialising turnstile trusted; x86 memory ordering not explored", "5/C12"),
  "C13": ("SEQ+CONC", "generated concurrent programs with shutdown calls + injection between the steps of shutdown(); history checker", "statuses and return values of every call around generated shutdown points; every acknowledgement completes; shutdown returns", "no-progress watchdog (10 s) is the only timing oracle", "5/C13"),
  "C14": ("SKETCH+FUZZ", "differential testing against an unpacked reference; exhaustive byte table + generated streams (proptest)", "256-value byte table enumerated; generated streams over all counter sizes compared counter by counter after every op; ageing checked at the exact threshold", "thin wrappers trusted to delegate; bloom filter answers observed, everything else predicted", "5/C14"),
